@@ -170,6 +170,33 @@ def main(tier):
             else:
                 st["agree"] += 1
                 run.nontriv(("st", src))
+        # ---------- an edit that cannot be carried out (`name - <something that has no negative>`) ends the list with an error: the host hears
+        #            of the edits before it, and of nothing from it on — a failed edit is not reported as if it had happened
+        NONNUM = ["'abc'", "[1,2]", "{'a':1}", "`x{1}`", "('a'+'b')", "[1][0:1]"]
+        fcases = []
+        for _ in range(300 if tier == "thorough" else 80):
+            pre_src, pre_exp = gen_modify_list(r) if r.random() < 0.5 else gen_assign_list(r)
+            if r.random() < 0.3:
+                pre_src, pre_exp = "^st", []
+            sep = "" if pre_src == "^st" else r.choice([",", ", "])
+            bad = r.choice(["力量", "hp", "san"]) + r.choice([" - ", "-", " -"]) + r.choice(NONNUM)
+            tail = r.choice(["", ", 敏捷+1", " hp+2", ", a=1"])
+            fcases.append((pre_src + sep + bad + tail, pre_exp))
+        fo = go_child().run([f"strun m {1:032x} {hx(src)}" for src, exp in fcases])
+        for (src, exp), o in zip(fcases, fo):
+            run.evaluations += 1
+            f = o.split()
+            kv = dict(x.split("=", 1) for x in f[1:] if "=" in x)
+            log = unhx(kv.get("st", "-")).decode("utf-8", "replace")
+            got = log.split(";") if log else []
+            rep = {"source": src, "expected_callbacks": exp, "callbacks": got, "implementation": o[:300]}
+            run.count("failing-edit." + (f[0] if f else "none"))
+            if f and f[0] in ("panic", "died"):
+                run.violation("st-failing-edit-crashes", rep)
+            elif f and f[0] == "err" and got != exp:
+                run.violation("st-failed-edit-reported-to-the-host", rep)
+            elif f and f[0] == "err":
+                run.nontriv(("st-fail", src))
         # ---------- model tie: plain assignment lists read by the Lean model
         plain = []
         for _ in range(1500 if tier == "thorough" else 400):
